@@ -261,6 +261,13 @@ pub fn c13(t: &dyn TypeOps, cx: &mut Cx, dmax: usize) {
         let reference = match t.ser(i) { Out::Ok((b, _)) => b, _ => { cx.outcome("skipped-unserializable"); continue; } };
         cx.case(case_hash(cx, &want), true);
         let prot = t.owned(i);
+        // entry 0: `serialize`; entry 1: `serialize_with_schema` (the same stream through the
+        // schema-recording writer), single deviations
+        let mut execs_total = 0u64;
+        for entry in 0..2u8 {
+        let ser = |w: &mut ScriptWriter| if entry == 0 { t.ser_script(i, w) } else { t.ser_script_schema(i, w) };
+        let dmax = if entry == 0 { dmax } else { 1 };
+        let tag = if entry == 0 { "writer" } else { "schema-writer" };
         let mut stack: Vec<Script> = vec![Script::default()];
         let mut execs = 0u64;
         while let Some(script) = stack.pop() {
@@ -268,7 +275,7 @@ pub fn c13(t: &dyn TypeOps, cx: &mut Cx, dmax: usize) {
             cx.evals += 1;
             let mut w = ScriptWriter::new(script.clone());
             protect(&prot);
-            let r = t.ser_script(i, &mut w);
+            let r = ser(&mut w);
             let freed = unprotect();
             cx.transitions += w.log.len() as u64;
             let hard = w.hard_fail;
@@ -290,7 +297,7 @@ pub fn c13(t: &dyn TypeOps, cx: &mut Cx, dmax: usize) {
             if t.val(i) != want { bad.push("source-value-changed".into()); }
             cx.outcome(&r.class());
             for b in bad {
-                cx.violate(&format!("writer-{}", b), json!({"value": vdesc(i, &want), "script": format!("{:?}", script.dev), "accepted": w.accepted.len(), "reference_len": reference.len(), "observed": r.describe()}));
+                cx.violate(&format!("{}-{}", tag, b), json!({"value": vdesc(i, &want), "script": format!("{:?}", script.dev), "accepted": w.accepted.len(), "reference_len": reference.len(), "observed": r.describe()}));
             }
             if script.dev.len() < dmax && !hard {
                 let start = script.dev.last().map(|(p, _)| p + 1).unwrap_or(0);
@@ -305,7 +312,20 @@ pub fn c13(t: &dyn TypeOps, cx: &mut Cx, dmax: usize) {
             }
             if execs > 300_000 { cx.count("capped_values", 1); break; }
         }
-        cx.count(&format!("scripts_D{}", dmax), execs);
+        cx.count(&format!("scripts_D{}{}", dmax, if entry == 0 { "" } else { "_schema" }), execs);
+        execs_total += execs;
+        // a flush that is interrupted forever never completes: an error, not success
+        {
+            cx.evals += 1;
+            let mut w = ScriptWriter::new(Script::default());
+            w.flush_always_interrupted = true;
+            let r = ser(&mut w);
+            cx.outcome(&format!("flush-always-interrupted-{}", r.class()));
+            if !matches!(&r, Out::Err(e) if e == "WriteError") {
+                cx.violate(&format!("{}-flush-never-completes-{}", tag, if matches!(r, Out::Ok(_)) { "reports-success".to_string() } else { r.class() }), json!({"value": vdesc(i, &want), "flush_attempts": w.log.iter().filter(|x| x.1).count(), "observed": r.describe()}));
+            }
+        }
+        }
         // all scripts with two deviations at ADJACENT choice points (a short write followed by an
         // interruption or a failure inside the same request), whatever the deviation bound
         if dmax < 2 {
@@ -339,17 +359,6 @@ pub fn c13(t: &dyn TypeOps, cx: &mut Cx, dmax: usize) {
             }
             cx.count("scripts_adjacent_pairs", pairs);
         }
-        // a flush that is interrupted forever never completes: an error, not success
-        {
-            cx.evals += 1;
-            let mut w = ScriptWriter::new(Script::default());
-            w.flush_always_interrupted = true;
-            let r = t.ser_script(i, &mut w);
-            cx.outcome(&format!("flush-always-interrupted-{}", r.class()));
-            if !matches!(&r, Out::Err(e) if e == "WriteError") {
-                cx.violate(&format!("writer-flush-never-completes-{}", if matches!(r, Out::Ok(_)) { "reports-success".to_string() } else { r.class() }), json!({"value": vdesc(i, &want), "flush_attempts": w.log.iter().filter(|x| x.1).count(), "observed": r.describe()}));
-            }
-        }
         // real sinks: a buffered file on a full device (the error surfaces when the buffer is
         // flushed) and a path that cannot be created
         if vi == 0 {
@@ -368,7 +377,7 @@ pub fn c13(t: &dyn TypeOps, cx: &mut Cx, dmax: usize) {
                 o => cx.violate(&format!("store-to-directory-{}", if matches!(o, Out::Ok(_)) { "reports-success".to_string() } else { o.class() }), json!({"value": vdesc(i, &want), "observed": o.describe()})),
             }
         }
-        if vi == 0 { cx.sample(json!({"type": cx.type_id, "value": format!("{:?}", want), "scripts_explored": execs, "deviation_bound": dmax})); }
+        if vi == 0 { cx.sample(json!({"type": cx.type_id, "value": format!("{:?}", want), "scripts_explored": execs_total, "entry_points": ["serialize", "serialize_with_schema"], "deviation_bound": dmax})); }
     }
 }
 
